@@ -275,12 +275,39 @@ fn system_scenarios<R: Rng>(rng: &mut R, path: &str) -> Vec<(Vec<FileSpec>, &'st
     out
 }
 
+/// Boundary runs that are part of every tier whatever the seed (the seeded scenarios reach them only by
+/// chance): timestamps exactly 0 and 2^32 - 1, event-less files first / in the middle / last, every event
+/// undecodable, a single event.
+fn fixed_scenarios<R: Rng>(rng: &mut R) -> Vec<Vec<FileSpec>> {
+    let run = u32::MAX;
+    let ok = |serial: u32, ts: u32, rng: &mut R| Event { id: 1, serial, ts: 1_000_000, banks: vec![trg_bank(ts, rng)] };
+    let bad = |serial: u32| Event { id: 1, serial, ts: 1_000_000, banks: vec![Bank { name: "TRBA".into(), data: vec![1] }] };
+    let file = |init: u32, fin: u32, events: Vec<Event>| FileSpec { init, fin, ext: "mid", run, events };
+    let mut out = Vec::new();
+    // a timestamp of exactly 0 first, in the middle (after a wrap) and last
+    out.push(vec![file(100, 101, vec![ok(0, 0, rng), ok(1, 5000, rng), ok(2, 70000, rng)])]);
+    out.push(vec![file(100, 101, vec![ok(0, u32::MAX - 10, rng), ok(1, 0, rng), ok(2, 123_456, rng), ok(3, 0, rng), ok(4, 1, rng)])]);
+    out.push(vec![file(100, 101, vec![ok(0, u32::MAX, rng), ok(1, 0, rng)]), file(101, 102, vec![ok(2, 0, rng), ok(3, u32::MAX, rng), ok(4, 0, rng)])]);
+    // undecodable events around a zero timestamp
+    out.push(vec![file(100, 101, vec![bad(0), ok(1, 0, rng), bad(2), ok(3, 77, rng), bad(4)])]);
+    // event-less files: in the middle (spanning 10 s), first, last, all
+    out.push(vec![file(100, 105, vec![ok(0, 10, rng)]), file(105, 115, vec![]), file(115, 120, vec![ok(1, 5_000_000, rng)])]);
+    out.push(vec![file(100, 130, vec![]), file(130, 131, vec![ok(0, 10, rng), ok(1, 20, rng)])]);
+    out.push(vec![file(100, 101, vec![ok(0, 10, rng)]), file(102, 150, vec![])]);
+    out.push(vec![file(100, 120, vec![]), file(121, 140, vec![])]);
+    // every event undecodable; a single event
+    out.push(vec![file(100, 101, vec![bad(0), bad(1), bad(2)])]);
+    out.push(vec![file(100, 100, vec![ok(7, 42, rng)])]);
+    out
+}
+
 pub fn run(runner: &mut Runner, bindir: &Path, work: &Path, seed: u64, count: u64, quick: bool, system: Option<&str>) {
     let mut rng = rng_from(seed, 19);
     let mut scenarios: Vec<(Vec<FileSpec>, &'static str, Vec<u8>)> = Vec::new();
     if let Some(p) = system {
         scenarios.extend(system_scenarios(&mut rng, p));
     }
+    scenarios.extend(fixed_scenarios(&mut rng).into_iter().map(|f| (f, "none", vec![])));
     for _ in 0..count {
         let (files, fault) = scenario_files(&mut rng, quick);
         scenarios.push((files, fault, vec![]));
